@@ -169,6 +169,21 @@ CHECKS = {
              'itself vs geometry: bounded brute-force stand-in.',
         technique='AST-generated verification conditions over the real source against callee contracts, z3; bounded native brute-force oracle',
         design_ref='Part III C04'),
+    'C05': dict(
+        category='proof',
+        text='select_indexes / select_index (real bodies: selector_for_indexes, drop_geometry, get_all_geometry_names, '
+             'extract_vars, isel) on 5 convention configurations x every grid kind, index lists of length 1..3 with symbolic '
+             'entries (repeats and every order covered), values of an uninterpreted sort: entry p of every kept variable is '
+             'exactly the value stored at requested cell p with every other dimension intact, variables are kept iff they '
+             'use the selected grid and are not geometry, empty and mixed-kind requests are refused. extract_points '
+             '(real body) against the contract of get_index_for_point for 1..3 points with every hit/miss pattern: '
+             "'error' raises NonIntersectingPoints naming exactly the misses, 'drop' keeps exactly the hits in request "
+             'order labelled with their original positions. extract_dataframe (pandas merge) is bounded natively. '
+             "One obligation family ('drop' when every point misses) is a known finding.",
+        note=TRUST + 'Assumed: XR-ISEL-POINTWISE, XR-DROP-VARS, XR-ASSIGN-COORDS, XR-SQUEEZE, contract of get_index_for_point (C04); '
+             'list length concrete (1..3). XR-MERGE-JOIN / PD-TO-XARRAY: bounded only.',
+        technique='AST-generated verification conditions over the real source at Skolem positions (uninterpreted values), z3; bounded native byte-for-byte comparison',
+        design_ref='Part III C05'),
 }
 
 NOT_YET = 'check not built yet (work in progress, see DESIGN.md)'
